@@ -235,7 +235,7 @@ func (w *world) rec(id int) []*base.LogRecord {
 // ---------- operations on the reloadable orchestrator ----------
 
 type step struct {
-	Actor string `json:"a"` // connection name or "reload"
+	Actor string `json:"a"`  // connection name or "reload"
 	Op    string `json:"op"` // new accept tick close reload reloadfail
 	Num   int    `json:"num,omitempty"`
 	Rec   int    `json:"rec,omitempty"`
